@@ -347,13 +347,20 @@ def explore(spec, cfgs, seed=0, account=True, log=None):
 
 
 # ------------------------------------------------------------------------------------------------
+def unlisted(spec, cfg, res, clause):
+    """first violation of `clause` in res that no known finding covers"""
+    for v in res.violations:
+        if v.clause == clause and match_finding(FINDINGS, spec.id, {"v": v.as_dict()}, cfg) is None:
+            return v
+    return None
+
+
 def minimise(spec, cfg, choices, clause):
-    """Greedy: reset non-default answers to the default while the same clause still fails."""
+    """Greedy: reset non-default answers to the default while the same (unlisted) clause still fails."""
     def fails(pref):
         res = harness.run(cfg, tuple(pref), list(spec.monitors(cfg)))
-        for v in res.violations:
-            if v.clause == clause:
-                return res
+        if unlisted(spec, cfg, res, clause) is not None:
+            return res
         return None
     best = fails(choices)
     if best is None:
